@@ -362,16 +362,20 @@ func (n *Tree[V]) findNode(path string, captures []string, matcher LookupMatcher
 			childPathLen := len(child.path)
 
 			if pathLen >= childPathLen && child.path == path[:childPathLen] {
+				var tmp []string
+
 				nextPath := path[childPathLen:]
-				found, idx, captures, backtrack = child.findNode(nextPath, captures, matcher)
+				found, idx, tmp, backtrack = child.findNode(nextPath, captures, matcher)
+
+				// the captures collected so far must survive a failed attempt, as they are
+				// needed if the search continues with the less specific alternatives below
+				if found != nil || !backtrack {
+					return found, idx, tmp, backtrack
+				}
 			}
 
 			break
 		}
-	}
-
-	if found != nil || !backtrack {
-		return found, idx, captures, backtrack
 	}
 
 	if n.wildcardChild != nil { //nolint:nestif
